@@ -2,13 +2,13 @@
 quick check (and list every other property whose check fires), restore /repo. Writes seeded/RESULTS.md."""
 import json, os, subprocess, sys, glob
 os.chdir('/verif')
-ALL = ['C%02d' % i for i in range(1, 20)]
+ALL = ['C%02d' % i for i in range(1, 21)]
 def sh(cmd, cwd='/verif'):
     r = subprocess.run(cmd, shell=True, cwd=cwd, stdout=subprocess.PIPE, stderr=subprocess.STDOUT, text=True)
     return r.returncode, r.stdout
 assert sh('git status --porcelain', '/repo')[1].strip() == '', '/repo not clean'
 rows = []
-only = sys.argv[1:]
+only = [a for a in sys.argv[1:] if not a.startswith('--')]
 for d in sorted(glob.glob('seeded/*/')):
     sid = os.path.basename(d.rstrip('/'))
     if only and sid not in only:
@@ -27,9 +27,20 @@ for d in sorted(glob.glob('seeded/*/')):
         sh('git checkout -- .', '/repo')
     rows.append((sid, prop, prop in fired, fired))
     print(sid, prop, 'DETECTED' if prop in fired else 'MISSED', fired.get(prop, []))
+# with ids given, only those rows are replaced; the other rows of an existing RESULTS.md are kept
+lines = {}
+if only and os.path.exists('seeded/RESULTS.md'):
+    for l in open('seeded/RESULTS.md'):
+        if l.startswith('| C'):
+            lines[l.split('|')[1].strip()] = l
+for sid, prop, det, fired in rows:
+    meta = json.load(open('seeded/%s/meta.json' % sid))
+    lines[sid] = '| %s | %s | %s | %s | %s |\n' % (sid, prop, 'yes' if det else '**NO**', ', '.join(fired.get(prop, [])), 'yes' if meta.get('initially_missed') else '')
+def _key(sid):
+    a, b = sid.split('_')
+    return (a, int(b))
 with open('seeded/RESULTS.md', 'w') as fh:
     fh.write('# Seeded changes vs. checks (quick tier)\n\n| id | property | detected | reporting rules | initially missed |\n|---|---|---|---|---|\n')
-    for sid, prop, det, fired in rows:
-        meta = json.load(open('seeded/%s/meta.json' % sid))
-        fh.write('| %s | %s | %s | %s | %s |\n' % (sid, prop, 'yes' if det else '**NO**', ', '.join(fired.get(prop, [])), 'yes' if meta.get('initially_missed') else ''))
+    for sid in sorted(lines, key=_key):
+        fh.write(lines[sid])
 print('%d/%d detected' % (sum(1 for r in rows if r[2]), len(rows)))
